@@ -28,7 +28,7 @@ PSLL = (60.0, 100.0, 150.0, 200.0)
 
 
 def shards(tier, seed):
-    Ls = list(range(16, 129)) + [1000, 4096] if tier == "quick" else list(range(16, 513)) + [1024, 4096]
+    Ls = list(range(16, 129)) + [1000, 4096, 70001] if tier == "quick" else list(range(16, 513)) + [1024, 4096, 70001]
     out = []
     step = 4 if tier == "quick" else 8
     for i in range(0, len(Ls), step):
@@ -63,7 +63,7 @@ def _sin(shard):
             pos = [m + 1.0, m + 1.37, L / 4 + 0.5, L / 2 - m - 1.2]
             pos = sorted({round(b, 9) for b in pos if m <= b <= L / 2 - m})
             for b, phi, A, fs, order, Nk in itertools.product(pos, (0.0, np.pi / 3, np.pi / 2, 2.1), (1e-3, 1.0, 1e3),
-                                                               (1.0, 1000.0), (-1, 0), ("L", "3L+1")):
+                                                               (1.0, 1000.0) + ((3e-8, 4e7) if L in (17, 64, 129) else ()), (-1, 0), ("L", "3L+1")):
                 cases.append({"part": "sin1", "L": L, "psll": psll, "b": b, "phi": phi, "A": A, "fs": fs, "order": order,
                               "N": L if Nk == "L" else 3 * L + 1})
     return _sin_cases(cases)
